@@ -284,10 +284,59 @@ func genSchema(repo string) *genFile {
 		})
 		return out
 	}
+	// case labels split by what the clause does: decode the element (a DecodeElement call) or not; and the
+	// statements of the default clause
+	caseSplit := func(pk *pkg, fd *ast.FuncDecl) (decoding, other, deflt []string) {
+		if fd == nil {
+			return
+		}
+		ast.Inspect(fd.Body, func(n ast.Node) bool {
+			cc, ok := n.(*ast.CaseClause)
+			if !ok {
+				return true
+			}
+			decodes := false
+			for _, st := range cc.Body {
+				ast.Inspect(st, func(x ast.Node) bool {
+					if ce, ok := x.(*ast.CallExpr); ok && strings.HasSuffix(exprText(ce.Fun), "DecodeElement") {
+						decodes = true
+					}
+					return true
+				})
+			}
+			if cc.List == nil {
+				for _, st := range cc.Body {
+					pk.flat(st, &deflt)
+				}
+				return true
+			}
+			for _, e := range cc.List {
+				if lit, ok := e.(*ast.BasicLit); ok && lit.Kind == token.STRING {
+					s, _ := strconv.Unquote(lit.Value)
+					if decodes {
+						decoding = append(decoding, s)
+					} else {
+						other = append(other, s)
+					}
+				}
+			}
+			return true
+		})
+		return
+	}
+	{
+		_, _, d := caseSplit(p, p.funcDecl("Action", "UnmarshalXML"))
+		g.pf("def actionUnmarshalDefault : List String := %s\n", leanStrList(d))
+	}
 	g.pf("def actionUnmarshalCases : List String := %s\n", leanStrList(caseLabels(p.funcDecl("Action", "UnmarshalXML"))))
 	g.pf("def osmUnmarshalJSONCases : List String := %s\n", leanStrList(caseLabels(p.funcDecl("OSM", "UnmarshalJSON"))))
 	if sp, err := loadPkg(repo + "/osmxml"); err == nil {
-		g.pf("def scannerCases : List String := %s\n", leanStrList(caseLabels(sp.funcDecl("Scanner", "Scan"))))
+		{
+			dec, oth, dfl := caseSplit(sp, sp.funcDecl("Scanner", "Scan"))
+			g.pf("def scannerCases : List String := %s\n", leanStrList(dec))
+			g.pf("def scannerContainerCases : List String := %s\n", leanStrList(oth))
+			g.pf("def scannerDefault : List String := %s\n", leanStrList(dfl))
+		}
 		// what the scanner's dispatch switches on (every switch with string case labels in Scan)
 		var tags []string
 		if fd := sp.funcDecl("Scanner", "Scan"); fd != nil {
